@@ -611,10 +611,13 @@ func (e *SpecEnv) evalIndex(n EIndex) Val {
 	case *types.Map:
 		k := e.eval(n.I)
 		k = g.coerce(k, g.sortOf(t.Key()), t.Key())
-		_, vn := g.mapNames(t)
-		_, vs := g.mapSorts(t)
+		dn, vn := g.mapNames(t)
+		ds, vs := g.mapSorts(t)
+		hd := g.heapGet(e.st, dn, ds)
 		hv := g.heapGet(e.st, vn, vs)
-		return Val{T: fmt.Sprintf("(select (select %s %s) %s)", hv, x.T, k.T), S: g.sortOf(t.Elem()), G: t.Elem()}
+		// Go semantics: zero value for absent keys (and for a nil map)
+		in := sAnd(sNot(sEq(x.T, "0")), fmt.Sprintf("(select (select %s %s) %s)", hd, x.T, k.T))
+		return Val{T: sIte(in, fmt.Sprintf("(select (select %s %s) %s)", hv, x.T, k.T), g.zero(t.Elem()).T), S: g.sortOf(t.Elem()), G: t.Elem()}
 	case *types.Basic:
 		if x.S.K == KStr {
 			i := e.idxVal(n.I)
@@ -735,6 +738,10 @@ func (e *SpecEnv) evalCall(n ECall) Val {
 			return Val{T: x.T, S: sInt, G: tt}
 		}
 		return g.convert(x, ft, tt, e.st)
+	case "aligned":
+		g.declareFun("aligned", "(Int Int) Bool")
+		x, d := g.coerce(arg(0), sInt, nil), g.coerce(arg(1), sInt, nil)
+		return Val{T: fmt.Sprintf("(aligned %s %s)", x.T, d.T), S: sBool}
 	case "wrap64":
 		x := arg(0)
 		return Val{T: fmt.Sprintf("(- (mod (+ %s 9223372036854775808) 18446744073709551616) 9223372036854775808)", x.T), S: sInt, G: types.Typ[types.Int64]}
